@@ -76,16 +76,25 @@ fn call_strategy() -> BoxedStrategy<Call> {
 /// two (or three) almost identical long one-word numbers, validated back to back: same length and a long
 /// common prefix (what a memo keyed on a truncated or hashed form of the last word would confuse)
 fn near_duplicates() -> BoxedStrategy<Vec<Call>> {
-    (0usize..7, num_strategy(1_000_000_000_000), 0usize..6, 0u8..4).prop_map(|(li, n, d, f)| {
+    (0usize..7, num_strategy(1_000_000_000_000), 1usize..14, 0u8..4, any::<bool>()).prop_map(|(li, n, back, f, glue)| {
         let l = LANGS[li];
-        // one-word styles: de style 0, nl style 1, it style 0; other languages: canonical
-        let bytes: &[u8] = match l { "nl" => &[64, 255, 0, 0, 0, 0], "de" => &[0, 0, 0, 0], _ => &[0] };
-        let base = n - n % 100 + 77;
-        let delta = [20u64, 10, 1, 2, 100_000, 1_000][d];
+        let words = spell::cardinal(l, n.max(1_000_000), &mut Canon);
+        // A: the spelled number, optionally glued into one long word (the oracle is differential, so it does
+        // not matter whether the library accepts the glued form); B: A with one ASCII letter near the end
+        // replaced by another one - same byte length, same long prefix, different word
+        let a: String = if glue { words.concat() } else { words.join(" ") };
+        let mut bytes = a.clone().into_bytes();
+        let mut k = bytes.len().saturating_sub(back);
+        while k > 0 && !bytes[k].is_ascii_lowercase() {
+            k -= 1;
+        }
+        if bytes[k].is_ascii_lowercase() {
+            bytes[k] = if bytes[k] == b'z' { b'a' } else { bytes[k] + 1 };
+        }
+        let b = String::from_utf8(bytes).unwrap_or_else(|_| a.clone());
         let mut v = vec![];
-        for m in [base, base + delta, base, base + delta] {
-            let text = spell::cardinal(l, m % 1_000_000_000_000, &mut Bytes::new(bytes)).join(" ");
-            v.push(Call { f: if f == 0 { 1 } else { 0 }, lang: l.to_string(), text, th_bits: 0 });
+        for t in [&a, &b, &a, &b] {
+            v.push(Call { f: if f == 0 { 1 } else { 0 }, lang: l.to_string(), text: t.clone(), th_bits: 0 });
         }
         v
     }).boxed()
@@ -216,7 +225,7 @@ impl Property for C14 {
         "C14"
     }
     fn rule(&self) -> String {
-        "History independence (generated, shrinkable): histories of 4..300 public calls (text2digits, replace_numbers_in_text, find_numbers on annotated tokens, find_numbers_iter drained, find_numbers_iter abandoned after its first or second result, replace_numbers_in_stream, exec_group, basic_annotate, get_interpreter_for+rewrite) drawn from a pool of 2..12 distinct calls over all seven languages, clean/dirty sentences and speller phrases, any threshold, repeated and interleaved, one history in four with a run of near-duplicate long one-word numbers (same length, long common prefix) inserted, on ONE set of shared interpreters; every result must equal the result of the same call on a freshly constructed interpreter. Sharing across threads (whole-run procedures): 16 threads share one &Language per language and replay generated call lists concurrently, every result must equal the single-threaded result on a fresh interpreter; cold start: 300 (thorough 3000) rounds in which 8 threads released by a barrier make the very first calls on a freshly built interpreter; hot loop: 16 threads hammer 8 long compound numbers per language on one interpreter; oversubscription: 384 (thorough 768) threads released by a barrier, most of them preempted in mid-call. Type level: a separate crate asserts Language and the seven concrete types are Send + Sync + 'static (./check C14 builds it first). Silence: the harness re-executes itself as a child with stdout and stderr piped; the child runs a workload through every public function that covers the spellings of all n < 2000, all scale words, ordinals < 200 in every inflection, decimals, every vocabulary word, and 20 000 generated calls; both pipes must stay empty. Non-trivial = distinct histories with >= 2 languages and a repeated call after a different call.".into()
+        "History independence (generated, shrinkable): histories of 4..300 public calls (text2digits, replace_numbers_in_text, find_numbers on annotated tokens, find_numbers_iter drained, find_numbers_iter abandoned after its first or second result, replace_numbers_in_stream, exec_group, basic_annotate, get_interpreter_for+rewrite) drawn from a pool of 2..12 distinct calls over all seven languages, clean/dirty sentences and speller phrases, any threshold, repeated and interleaved, one history in four with a run of near-duplicate long inputs inserted (a spelled number >= 10^6, optionally glued into one word, alternating with a copy in which one letter near the end is changed: same length, long common prefix), on ONE set of shared interpreters; every result must equal the result of the same call on a freshly constructed interpreter. Sharing across threads (whole-run procedures): 16 threads share one &Language per language and replay generated call lists concurrently, every result must equal the single-threaded result on a fresh interpreter; cold start: 300 (thorough 3000) rounds in which 8 threads released by a barrier make the very first calls on a freshly built interpreter; hot loop: 16 threads hammer 8 long compound numbers per language on one interpreter; oversubscription: 384 (thorough 768) threads released by a barrier, most of them preempted in mid-call. Type level: a separate crate asserts Language and the seven concrete types are Send + Sync + 'static (./check C14 builds it first). Silence: the harness re-executes itself as a child with stdout and stderr piped; the child runs a workload through every public function that covers the spellings of all n < 2000, all scale words, ordinals < 200 in every inflection, decimals, every vocabulary word, and 20 000 generated calls; both pipes must stay empty. Non-trivial = distinct histories with >= 2 languages and a repeated call after a different call.".into()
     }
     fn assumptions(&self) -> Vec<String> {
         vec![
@@ -351,7 +360,8 @@ impl Property for C14 {
         // (process-wide counters / limits on calls in flight only show up with far more threads than cores)
         {
             let nthreads = tier.pick(384usize, 768usize);
-            let iters = tier.pick(300usize, 1500usize);
+            // long enough per thread (tens of ms) that threads are preempted in mid-call instead of finishing within one time slice
+            let iters = tier.pick(4_000usize, 12_000usize);
             let texts: Vec<(usize, String, String)> = LANGS
                 .iter()
                 .enumerate()
